@@ -224,6 +224,21 @@ def branch():
          D1: lambda g: g(C1) + 1})
 
 
+def logic():
+    """AND / OR over cell references (their arguments are evaluated lazily,
+    as a variable-length list), feeding an IF."""
+    A1, A2, B1, B2, C1 = (S + x for x in ('A1', 'A2', 'B1', 'B2', 'C1'))
+    return ModelSpec(
+        'logic',
+        {A1: 5, A2: 0, B1: '=AND(A1,A2)', B2: '=OR(A1,A2)',
+         C1: '=IF(OR(B1,A2),10,20)+IF(B2,1,2)'},
+        [A1, A2], [0, 5],
+        {B1: lambda g: bool(g(A1)) and bool(g(A2)),
+         B2: lambda g: bool(g(A1)) or bool(g(A2)),
+         C1: lambda g: (10 if (g(B1) or bool(g(A2))) else 20)
+         + (1 if g(B2) else 2)})
+
+
 def othersheet():
     """read_and_parse_dict with formulas on a sheet that is not the default
     one: an unqualified range (with a hole: A2 is not a cell of the model)
@@ -337,7 +352,8 @@ def lookup():
 
 
 ALL = [chain, diamond, sumrange, formularange, crosssheet, textmodel, named,
-       branch, lookup, errrange, typed, guarded, named_extracted, othersheet]
+       branch, lookup, errrange, typed, guarded, named_extracted, othersheet,
+       logic]
 ALL_C05 = ALL + [twodim, longrange, criteria]
 
 
